@@ -60,7 +60,6 @@ func (gkg GaloisKeyGenProtocol) GenShare(sk *rlwe.SecretKey, galEl uint64, crp G
 	levelP := shareOut.LevelP()
 
 	ringQ := gkg.params.RingQ().AtLevel(levelQ)
-	ringP := gkg.params.RingP().AtLevel(levelP)
 
 	galElInv := ring.ModExp(galEl, ringQ.NthRoot()-1, ringQ.NthRoot())
 
@@ -69,8 +68,9 @@ func (gkg GaloisKeyGenProtocol) GenShare(sk *rlwe.SecretKey, galEl uint64, crp G
 
 	ringQ.AutomorphismNTT(sk.Value.Q, galElInv, gkg.skOut.Q)
 
+	// The parameters may have no auxiliary modulus P (levelP = -1).
 	if levelP > -1 {
-		ringP.AutomorphismNTT(sk.Value.P, galElInv, gkg.skOut.P)
+		gkg.params.RingP().AtLevel(levelP).AutomorphismNTT(sk.Value.P, galElInv, gkg.skOut.P)
 	}
 
 	return gkg.EvaluationKeyGenProtocol.GenShare(sk, &rlwe.SecretKey{Value: gkg.skOut}, crp.EvaluationKeyGenCRP, &shareOut.EvaluationKeyGenShare)
